@@ -807,6 +807,9 @@ func c13RestartGen(r *rand.Rand, tier string) *sim.Scn {
 			s.Ops = append(s.Ops, sim.Op{K: "da", A: r.Int64N(10), B: r.Int64N(3)})
 		}
 	}
+	if tier != "thorough" && s.Cfg["jitter"] > 400 {
+		s.Cfg["jitter"] = 400 // the slowest goroutines make a whole-node scenario take minutes: thorough tier only
+	}
 	return s
 }
 
